@@ -2743,7 +2743,7 @@ func (m *Machine) detectQueueDuplicates(mutationType MutationType,
 		return false
 	}
 	// check if this mutation is already scheduled
-	found, idx, _ := m.IsQueued(mutationType, states, true, true, 0, isCheck,
+	found, idx, qTick := m.IsQueued(mutationType, states, true, true, 0, isCheck,
 		PositionAny)
 	if !found {
 		return false
@@ -2754,7 +2754,19 @@ func (m *Machine) detectQueueDuplicates(mutationType MutationType,
 	// counter mutation), as the result would differ
 	m.queueMx.RLock()
 	defer m.queueMx.RUnlock()
-	for i := int(idx) + 1; i < len(m.queue); i++ {
+
+	// the queue may have moved since, find it again
+	at := int(idx)
+	if qTick > 0 {
+		at = slices.IndexFunc(m.queue, func(mut *Mutation) bool {
+			return mut.QueueTick == qTick && mut.IsCheck == isCheck
+		})
+		// already being processed
+		if at == -1 {
+			return false
+		}
+	}
+	for i := at + 1; i < len(m.queue); i++ {
 		if !m.queue[i].IsCheck && m.queue[i].Type != mutationEval {
 			return false
 		}
